@@ -214,6 +214,80 @@ def parseImpl (rhs : List String) : Option Impl := do
 
 def sizeClass (n : Nat) : String := if n ≤ 6 then "tiny" else if n ≤ 25 then "small" else "large"
 
+/-! ## histories (several extractions on one reader) and cancelled extractions -/
+
+/-- Spec answer for one extraction: ids of the least closed set for the DOCUMENTED keep function -/
+def specIds (doc : Doc) (ks : KeepSpec) : Option String :=
+  let C := closure doc (specKeep ks)
+  if closedB doc (specKeep ks) C then some (idsStr (C.filter (presentB doc))) else none
+
+/-- model answer for one sequential extraction: ids, Check, number of passes (= rewinds of the input) -/
+def modelSeq (doc : Doc) (k : Keep) : Option (String × String × Nat) :=
+  match seqLoop ⟨true, k, 1⟩ doc (passFuel doc) State.init 0 0 with
+  | some (s, passes, _) => some (keptStr doc s, if check (result doc s) then "ok" else "fail", passes)
+  | none => none
+
+/-- every extraction of a history is judged on its own: the reader's position and earlier calls
+must not matter (`extract` rewinds the input at the start of EVERY pass) -/
+def judgeHist (keepToks : List String) (doc : Doc) (rhs : List String) : String :=
+  let dang := !noDanglingB doc
+  let cls := s!"history-{keepToks.length}-{if dang then "dangling" else "closed"}"
+  if !uniqueKeysB doc then s!"OK {cls}-skipped" else
+  match fieldOf "hist=" rhs, keepToks.mapM parseKeep with
+  | some h, some keeps =>
+    let parts := splitS ';' h
+    if parts.length != keeps.length then s!"DIFF {cls} unparsable-implementation-answer" else
+    let verdicts := (List.zip (List.zip keeps parts) (List.range keeps.length)).map fun (((k, ks, _), part), i) =>
+      match specIds doc ks, modelSeq doc k with
+      | some want, some (mIds, mChk, _) =>
+        match splitS '/' part with
+        | [ids, chk] =>
+          if ids != want then
+            some s!"SPEC {cls} extraction-{i+1}-of-a-history-on-one-reader-is-not-the-least-closed-set got={ids} want={want}"
+          else if !dang && chk != "ok" then some s!"SPEC {cls} Check-fails-on-extraction-{i+1}-of-a-history"
+          else if (ids, chk) != (mIds, mChk) then some s!"DIFF {cls} extraction-{i+1} model={mIds}/{mChk} impl={part}"
+          else none
+        | _ => some s!"SPEC {cls} extraction-{i+1}-of-a-history-on-one-reader-fails: {part}"
+      | _, _ => some s!"DIFF {cls} spec-or-model-failed"
+    match verdicts.filterMap id with
+    | [] => s!"OK {cls}"
+    | vs => (vs.find? (·.startsWith "SPEC")).getD (vs.headD "")
+  | _, _ =>
+    match rhs with
+    | "timeout" :: _ => s!"SPEC {cls} extraction-does-not-return"
+    | "crash" :: w => s!"SPEC {cls} extraction-crashes-the-process {" ".intercalate w}"
+    | _ => "BAD parse"
+
+/-- Spec for a cancelled extraction: EITHER a non-nil error OR exactly the least closed set — never a
+silent partial result.  Model: the input is rewound once per pass, so cancelling on the n-th rewind
+makes pass n scan nothing: an error is expected iff the extraction needs at least n passes. -/
+def judgeCancel (n : Nat) (keepTok : String) (doc : Doc) (rhs : List String) : String :=
+  let dang := !noDanglingB doc
+  if !uniqueKeysB doc then "OK cancel-skipped" else
+  match parseKeep keepTok, fieldOf "cancel=" rhs with
+  | some (k, ks, _), some ans =>
+    match specIds doc ks, modelSeq doc k with
+    | some want, some (mIds, mChk, passes) =>
+      let hit := decide (n ≤ passes)
+      let cls := s!"cancel-{if hit then "during" else "after"}-{if dang then "dangling" else "closed"}"
+      if ans.startsWith "err:" then
+        if hit then s!"OK {cls}" else s!"DIFF {cls} error-although-the-context-was-never-cancelled-during-the-run {ans}"
+      else match splitS '/' ans with
+        | ["ok", ids, chk] =>
+          if ids != want then
+            s!"SPEC {cls} nil-error-with-a-partial-result-after-cancellation got={ids} want={want}"
+          else if !dang && chk != "ok" then s!"SPEC {cls} nil-error-and-Check-fails-after-cancellation"
+          else if hit then s!"DIFF {cls} model-expects-an-error-impl-returned-the-closure"
+          else if (ids, chk) != (mIds, mChk) then s!"DIFF {cls} model={mIds}/{mChk} impl={ans}"
+          else s!"OK {cls}"
+        | _ => s!"SPEC {cls} cancelled-extraction-{ans}"
+    | _, _ => "DIFF cancel spec-or-model-failed"
+  | _, _ =>
+    match rhs with
+    | "timeout" :: _ => "SPEC cancel extraction-does-not-return"
+    | "crash" :: w => s!"SPEC cancel extraction-crashes-the-process {" ".intercalate w}"
+    | _ => "BAD parse"
+
 def tokens (line : String) : List String := (line.splitOn " ").filter (· ≠ "")
 
 def judgeLine (line : String) : String :=
@@ -221,6 +295,15 @@ def judgeLine (line : String) : String :=
   let lhs := toks.takeWhile (· ≠ "=>")
   let rhs := toks.drop (lhs.length + 1)
   match lhs with
+  | "h" :: _pos :: rest =>
+    let keepToks := rest.takeWhile (· ≠ "|")
+    match (rest.drop (keepToks.length + 1)).mapM parseObj with
+    | some doc => judgeHist keepToks doc rhs
+    | none => "BAD parse"
+  | "c" :: n :: keepTok :: "|" :: objToks =>
+    match objToks.mapM parseObj with
+    | some doc => judgeCancel (n.toNat?.getD 0) keepTok doc rhs
+    | none => "BAD parse"
   | "x" :: keepTok :: _runs :: seedTok :: "|" :: objToks =>
     match parseKeep keepTok, objToks.mapM parseObj with
     | some (k, ks, kname), some doc =>
